@@ -13,8 +13,16 @@ WriterStep(p) ==
   \/ PutNames(p, Merge(p, namesFile)) \/ ClearObsolete(p) \/ UnlockNames(p)
   \/ (\E i \in AllIds : ObsoletePack(p, i) \/ ObsoleteIdx(p, i))
   \/ SetTip(p)
+PackerStep(p) ==
+  \/ Load(p)
+  \/ (pc[p] = "write" /\ mem[p] \subseteq (packsDir \cap idxDir) /\ PackOk(p, mem[p]))
+  \/ (pc[p] = "write" /\ ~(mem[p] \subseteq (packsDir \cap idxDir)) /\ Refresh(p))     \* RetryPackOperations
+  \/ LockNames(p) \/ PutNames(p, Merge(p, namesFile)) \/ ClearObsolete(p) \/ UnlockNames(p)
+  \/ (\E i \in AllIds : ObsoletePack(p, i) \/ ObsoleteIdx(p, i))
+  \/ EndPack(p)
 ReaderStep(p) == Load(p) \/ (\E i \in mem[p] : ReadPack(p, i)) \/ ReaderDone(p)
-Next == \E p \in Procs : (p \in Writers /\ WriterStep(p)) \/ (p \in Readers /\ ReaderStep(p)) \/ Crash(p)
+Next == \E p \in Procs : (p \in Writers /\ WriterStep(p)) \/ (p \in Readers /\ ReaderStep(p))
+                        \/ (p \in Packers /\ PackerStep(p)) \/ Crash(p)
 Spec == Init /\ [][Next]_vars
 \* anti-vacuity
 WitnessAutopackRace == ~(\E p, q \in Writers : p # q /\ pc[p] = "obsolete" /\ pc[q] = "obsolete")
